@@ -70,3 +70,10 @@ package state_machines
 // A cancelled round stays cancelled: in the proposal and key-generation machines every transition from a cancelled
 // state leads to a cancelled state and no machine starts in one (decided on the tables produced by the real constructors).
 //@ tables[C05.terminal] terminal signature_proposal_fsm dkg_proposal_fsm
+
+// a new round starts empty, in the idle state, with the entry machine
+//@ func Create
+//@   safety C19
+//@   nosafety
+//@   modifies *
+//@   ensures[C19.create] result1 == nil ==> result0 != nil && fresh(result0) && result0.dump != nil && result0.dump.State == fsm.StateGlobalIdle && result0.dump.Payload != nil && result0.dump.Payload.DKGProposalPayload == nil && result0.dump.Payload.SignatureProposalPayload == nil && result0.dump.Payload.SigningProposalPayload == nil
